@@ -147,7 +147,7 @@ Qed.
 Lemma tagged_nodes_In ix n : In n (tagged_nodes ix) <-> exists t, In (RTag t, n) ix.
 Proof.
   unfold tagged_nodes. rewrite in_flat_map. split.
-  - intros ([r m] & He & Hn). simpl in Hn. destruct r; simpl in Hn; [|contradiction].
+  - intros ([r m] & He & Hn). simpl in Hn. destruct r; simpl in Hn; try contradiction.
     destruct Hn as [<-|[]]. eauto.
   - intros (t & H). exists (RTag t, n). split; [assumption|now left].
 Qed.
@@ -156,7 +156,7 @@ Lemma candidates_In ix n :
   In n (candidates ix) <-> (exists d, In (RDig d, n) ix) /\ ~ In n (tagged_nodes ix).
 Proof.
   unfold candidates. rewrite in_flat_map. split.
-  - intros ([r m] & He & Hn). simpl in Hn. destruct r; simpl in Hn; [contradiction|].
+  - intros ([r m] & He & Hn). simpl in Hn. destruct r; simpl in Hn; try contradiction.
     destruct (memb m (tagged_nodes ix)) eqn:E; [contradiction|].
     destruct Hn as [<-|[]]. apply memb_false in E. eauto.
   - intros ((d & H) & Hn). exists (RDig d, n). split; [assumption|]. simpl.
@@ -220,7 +220,7 @@ Proof. unfold do_walk. cbn [fixF1 cfg_fixed]. apply walk_spec. lia. Qed.
 Lemma keep_step_spec g kept ch n :
   GInv g kept -> In n (candidates ix) ->
   exists g' kept' ch',
-    keep_step succ subject cfg_fixed bl (g, kept, ch, false) n = (g', kept', ch', false) /\
+    keep_step succ subject manifest cfg_fixed bl (g, kept, ch, false) n = (g', kept', ch', false) /\
     GInv g' kept' /\
     (forall x, In x g -> In x g') /\
     ((ch' = ch /\ g' = g /\ kept' = kept /\
@@ -257,7 +257,7 @@ Qed.
 Lemma pass_spec : forall l g kept ch,
   GInv g kept -> (forall n, In n l -> In n (candidates ix)) ->
   exists g' kept' ch',
-    fold_left (keep_step succ subject cfg_fixed bl) l (g, kept, ch, false) = (g', kept', ch', false) /\
+    fold_left (keep_step succ subject manifest cfg_fixed bl) l (g, kept, ch, false) = (g', kept', ch', false) /\
     GInv g' kept' /\
     ((ch' = ch /\ g' = g /\ kept' = kept /\
       forall n, In n l -> In n kept \/ ~ exists s, Chain bl n s /\ In s g) \/
@@ -286,7 +286,7 @@ Proof. intro I. apply NoDup_incl_length; [apply (gi_nodup _ _ I)|]. intros r. ap
 Lemma gc_passes_spec : forall fuel i g kept,
   GInv g kept -> length (candidates ix) < fuel + length kept ->
   exists g' kept',
-    gc_passes succ subject cfg_fixed bl ords fuel i g kept = Some (g', kept') /\
+    gc_passes succ subject manifest cfg_fixed bl ords fuel i g kept = Some (g', kept') /\
     GInv g' kept' /\
     forall n, In n (candidates ix) -> In n kept' \/ ~ exists s, Chain bl n s /\ In s g'.
 Proof.
@@ -302,11 +302,11 @@ Qed.
 
 Lemma gc_index_spec (kl : bool) :
   exists ix' g,
-    gc_index succ subject cfg_fixed kl ords st = Some (ix', g) /\
+    gc_index succ subject manifest cfg_fixed kl ords st = Some (ix', g) /\
     (forall x, In x g <-> Live x) /\
     (forall t n, In (RTag t, n) ix' <-> In (RTag t, n) ix).
 Proof.
-  unfold gc_index. fold ix bl.
+  unfold gc_index. fold ix bl. change (clo succ manifest cfg_fixed bl) with (closure succ bl).
   destruct (gc_passes_spec (S (length (candidates ix))) 0 _ [] GInv_init ltac:(simpl; lia))
     as (g & kept & Hp & I & Hfin).
   rewrite Hp. eexists _, g. split; [reflexivity|]. split.
@@ -326,6 +326,60 @@ Proof.
     + intro H. left. split; [assumption|reflexivity].
 Qed.
 
+(* what a reload of the rebuilt index sees: every entry that is stored is in the graph, the
+   graph is closed, every live node is reachable from an entry, no stale entries *)
+Lemma gc_index_reload (kl : bool) :
+  exists ix' g,
+    gc_index succ subject manifest cfg_fixed kl ords st = Some (ix', g) /\
+    (forall x s, In x g -> In s (succ x) -> In s bl -> In s g) /\
+    (forall e, In e ix' -> In (snd e) bl -> In (snd e) g) /\
+    (forall x, In x g -> exists e, In e ix' /\ Reach bl (snd e) x) /\
+    (forall e, In e ix' -> match fst e with RStale _ => false | _ => true end = true).
+Proof.
+  unfold gc_index. fold ix bl. change (clo succ manifest cfg_fixed bl) with (closure succ bl).
+  destruct (gc_passes_spec (S (length (candidates ix))) 0 _ [] GInv_init ltac:(simpl; lia))
+    as (g & kept & Hp & I & Hfin).
+  rewrite Hp. eexists _, g. split; [reflexivity|].
+  assert (Hentry : forall e,
+    In e (filter (fun e => match fst e with RTag _ => true | _ => false end) ix ++
+          map (fun n => (RDig n, n))
+            (dedup (tagged_nodes ix) ++ kept ++
+             (if kl then filter (fun n => memb n g) (digested ix) else []))) ->
+    (exists t, e = (RTag t, snd e) /\ In e ix) \/
+    (fst e = RDig (snd e) /\ (In (snd e) (tagged_nodes ix) \/ In (snd e) kept \/ In (snd e) g))).
+  { intros e He. apply in_app_or in He as [He|He].
+    - apply filter_In in He as [He Hm]. destruct e as [[t| |] n]; try discriminate. left. eauto.
+    - apply in_map_iff in He as (n & <- & Hn). right. split; [reflexivity|]. cbn [fst snd].
+      apply in_app_or in Hn as [Hn|Hn]; [left; exact (proj1 (dedup_In _ _) Hn)|].
+      apply in_app_or in Hn as [Hn|Hn]; [right; now left|]. right. right.
+      destruct kl; [|destruct Hn]. apply filter_In in Hn as [_ Hn]. now apply memb_In. }
+  split; [apply (gi_closed _ _ I)|]. split; [|split].
+  - intros e He Hb. destruct (Hentry e He) as [(t & Ee & Hin)|(_ & [Ht|[Hk|Hg]])].
+    + rewrite Ee in Hin. eapply (gi_roots _ _ I); eauto.
+    + apply tagged_nodes_In in Ht as (t & Ht). eapply (gi_roots _ _ I); eauto.
+    + now apply (gi_kept _ _ I).
+    + assumption.
+  - intros x Hx. apply (gi_sound _ _ I) in Hx.
+    induction Hx as [t n x Ht Hr|d r s x Hd Hc _ IHs Hr].
+    + exists (RTag t, n). split; [|exact Hr]. apply in_or_app. left. apply filter_In. split; [assumption|reflexivity].
+    + destruct (in_dec Nat.eq_dec r (tagged_nodes ix)) as [Ht|Ht].
+      * apply tagged_nodes_In in Ht as (t & Ht). exists (RTag t, r). split; [|exact Hr].
+        apply in_or_app. left. apply filter_In. split; [assumption|reflexivity].
+      * assert (Hcand : In r (candidates ix)) by (apply candidates_In; eauto).
+        destruct IHs as (e & He & Hre).
+        assert (Hsg : In s g).
+        { eapply closed_reach; [apply (gi_closed _ _ I)|exact Hre|].
+          destruct (Hentry e He) as [(t & Ee & Hin)|(_ & [Ht'|[Hk|Hg]])].
+          - rewrite Ee in Hin. eapply (gi_roots _ _ I); eauto. eapply Reach_start; eauto.
+          - apply tagged_nodes_In in Ht' as (t & Ht'). eapply (gi_roots _ _ I); eauto. eapply Reach_start; eauto.
+          - now apply (gi_kept _ _ I).
+          - assumption. }
+        destruct (Hfin r Hcand) as [Hk|Hno]; [|exfalso; apply Hno; eauto].
+        exists (RDig r, r). split; [|exact Hr]. apply in_or_app. right. apply in_map_iff.
+        exists r. split; [reflexivity|]. apply in_or_app. right. apply in_or_app. now left.
+  - intros e He. destruct (Hentry e He) as [(t & Ee & _)|(Ee & _)]; rewrite Ee; reflexivity.
+Qed.
+
 End GC.
 
 (* GC of the repaired code: terminates with Ok for every state and every order,
@@ -335,7 +389,7 @@ End GC.
 Lemma gc_exact : forall (kl : bool) (ords : nat -> list nat) (st : state),
   (forall i n, In n (ords i) <-> In n (candidates (idx st))) ->
   exists st',
-    gc succ subject cfg_fixed kl ords st = (st', Ok) /\
+    gc succ subject manifest cfg_fixed kl ords st = (st', Ok) /\
     (forall x, In x (gnodes st') <-> Live st x) /\
     (forall x, In x (blobs st') <-> In x (blobs st) /\ Live st x) /\
     (forall t n, In (RTag t, n) (idx st') <-> In (RTag t, n) (idx st)) /\
@@ -360,7 +414,7 @@ Qed.
 (* every live node keeps exactly its live predecessors *)
 Lemma gc_preds : forall kl ords st st',
   (forall i n, In n (ords i) <-> In n (candidates (idx st))) ->
-  gc succ subject cfg_fixed kl ords st = (st', Ok) ->
+  gc succ subject manifest cfg_fixed kl ords st = (st', Ok) ->
   forall x p, In p (preds succ (gnodes st') x) <-> Live st p /\ In x (succ p).
 Proof.
   intros kl ords st st' Ho Hgc x p.
@@ -372,13 +426,14 @@ Qed.
 (* ================================================================== *)
 (* Part 2: Delete with AutoGC *)
 
-Lemma is_tagged_spec st n : is_tagged st n = true <-> exists t, In (RTag t, n) (idx st).
+Lemma is_tagged_spec st n :
+  is_tagged st n = true <-> exists t, In (RTag t, n) (idx st) \/ In (RStale t, n) (idx st).
 Proof.
   unfold is_tagged. rewrite existsb_exists. split.
-  - intros ([r m] & He & H). unfold is_tag_entry in H. simpl in H. destruct r; [|discriminate].
-    apply Nat.eqb_eq in H. subst. eauto.
-  - intros (t & H). exists (RTag t, n). split; [assumption|]. unfold is_tag_entry. simpl.
-    apply Nat.eqb_refl.
+  - intros ([r m] & He & H). unfold is_tag_entry in H. simpl in H. destruct r; try discriminate;
+      apply Nat.eqb_eq in H; subst; eauto.
+  - intros (t & [H|H]); [exists (RTag t, n)|exists (RStale t, n)]; (split; [assumption|]);
+      unfold is_tag_entry; simpl; apply Nat.eqb_refl.
 Qed.
 
 Lemma preds_In g n p : In p (preds succ g n) <-> In p g /\ In n (succ p).
@@ -412,13 +467,18 @@ Variable x : nat.
 Let G := gnodes st0.
 Let B := blobs st0.
 
+(* p holds r: p lists r other than as its subject (a referrer does not keep its subject) *)
+Definition holds (p r : nat) : Prop := In r (succ p) /\ subject p <> Some r.
+
 (* the set Delete(x) removes when AutoGC is on: least set containing x, closed under
-   "untagged manifest in the store whose subject was removed" and "untagged node of
-   the store that had predecessors, all of which were removed" *)
+   "untagged manifest of the store whose subject (a manifest) was removed and whose holders
+   were all removed" and "untagged node of the store that had predecessors, all of which
+   were removed" *)
 Inductive Gone : nat -> Prop :=
 | G_target : Gone x
 | G_ref r m : Gone m -> manifest m = true -> In r G -> subject r = Some m ->
-              is_tagged st0 r = false -> Gone r
+              is_tagged st0 r = false ->
+              (forall p, In p G -> holds p r -> Gone p) -> Gone r
 | G_dang d : In d G -> is_tagged st0 d = false ->
              (exists p, In p G /\ In d (succ p)) ->
              (forall p, In p G -> In d (succ p) -> Gone p) -> Gone d.
@@ -430,7 +490,12 @@ Hypothesis x_in : In x B.
 Variable ord : nat -> list nat -> list nat.
 Hypothesis ord_perm : forall k l y, In y (ord k l) <-> In y l.
 
-Record DInv (st : state) (queue seen proc : list nat) : Prop := {
+(* an untagged referrer of an already processed manifest *)
+Definition waiting (proc : list nat) (r : nat) : Prop :=
+  In r G /\ is_tagged st0 r = false /\
+  exists m, In m proc /\ manifest m = true /\ subject r = Some m.
+
+Record DInv (st : state) (queue seen proc pending : list nat) : Prop := {
   di_seen : seen = proc ++ queue;
   di_nodup : NoDup seen;
   di_x : In x seen;
@@ -441,8 +506,10 @@ Record DInv (st : state) (queue seen proc : list nat) : Prop := {
   di_s : strays st = strays st0;
   di_sound : forall y, In y seen -> Gone y;
   di_sub : forall y, In y seen -> y = x \/ In y G;
-  di_ref : forall m r, In m proc -> manifest m = true -> In r G -> subject r = Some m ->
-                       is_tagged st0 r = false -> In r seen;
+  di_ref : forall r, waiting proc r -> In r seen \/ In r pending;
+  di_pend : forall r, In r pending -> waiting proc r;
+  di_blocked : queue = [] -> forall r, In r pending -> ~ In r seen ->
+               exists p, In p G /\ holds p r /\ ~ In p seen;
   di_dang : forall d, In d G -> is_tagged st0 d = false ->
                       (exists p, In p G /\ In d (succ p)) ->
                       (forall p, In p G -> In d (succ p) -> In p proc) -> In d seen }.
@@ -451,9 +518,12 @@ Lemma tagged_same st proc y :
   (forall e, In e (idx st) <-> In e (idx st0) /\ ~ In (snd e) proc) ->
   ~ In y proc -> is_tagged st y = is_tagged st0 y.
 Proof.
-  intros Hi Hy. apply eq_true_iff_eq. rewrite !is_tagged_spec. split; intros (t & H); exists t.
-  - now apply Hi in H.
-  - apply Hi. split; [assumption|exact Hy].
+  intros Hi Hy. apply eq_true_iff_eq. rewrite !is_tagged_spec.
+  split; intros (t & [H|H]); exists t.
+  - left. now apply Hi in H.
+  - right. now apply Hi in H.
+  - left. apply Hi. split; [assumption|exact Hy].
+  - right. apply Hi. split; [assumption|exact Hy].
 Qed.
 
 Lemma seen_bound seen : NoDup seen -> (forall y, In y seen -> y = x \/ In y G) ->
@@ -463,30 +533,52 @@ Proof.
   apply NoDup_incl_length; [assumption|]. intros y Hy. destruct (Hs y Hy); [left; congruence|now right].
 Qed.
 
-Lemma delete_loop_spec : forall fuel k st queue seen proc,
-  DInv st queue seen proc -> 2 + length G <= fuel + length proc ->
-  exists st' proc',
-    delete_loop succ subject manifest cfg_fixed ord fuel k st queue seen = (st', Ok) /\
-    DInv st' [] proc' proc'.
+Lemma has_subject_spec r p : has_subject subject r p = true <-> subject p = Some r.
 Proof.
-  induction fuel as [|fuel IH]; intros k st queue seen proc I Hf.
-  - pose proof (seen_bound seen (di_nodup _ _ _ _ I) (di_sub _ _ _ _ I)) as Hb.
-    rewrite (di_seen _ _ _ _ I), app_length in Hb. lia.
+  unfold has_subject. destruct (subject p) as [s|]; [|split; discriminate].
+  rewrite Nat.eqb_eq. split; congruence.
+Qed.
+
+(* Store.heldBySurvivor *)
+Lemma held_spec g seen r :
+  held succ subject g seen r = true <-> exists p, In p g /\ holds p r /\ ~ In p seen.
+Proof.
+  unfold held. rewrite existsb_exists. split.
+  - intros (p & Hp & H). apply preds_In in Hp as [Hg Hs]. apply andb_true_iff in H as [H1 H2].
+    apply negb_true_iff in H1, H2. apply memb_false in H1. exists p. repeat split; try assumption.
+    intro E. apply has_subject_spec in E. congruence.
+  - intros (p & Hg & [Hs Hn] & Hq). exists p. split; [apply preds_In; tauto|].
+    apply andb_true_iff. split; apply negb_true_iff.
+    + now apply memb_false.
+    + destruct (has_subject subject r p) eqn:E; [|reflexivity]. apply has_subject_spec in E. contradiction.
+Qed.
+
+Lemma delete_loop_spec : forall fuel k st queue seen proc pending,
+  DInv st queue seen proc pending -> 2 + length G <= fuel + length proc ->
+  exists st' proc' pend',
+    delete_loop succ subject manifest cfg_fixed ord fuel k st queue seen pending = (st', Ok) /\
+    DInv st' [] proc' proc' pend'.
+Proof.
+  induction fuel as [|fuel IH]; intros k st queue seen proc pending I Hf.
+  - pose proof (seen_bound seen (di_nodup _ _ _ _ _ I) (di_sub _ _ _ _ _ I)) as Hb.
+    rewrite (di_seen _ _ _ _ _ I), app_length in Hb. lia.
   - destruct queue as [|h q].
-    + simpl. exists st, proc. split; [reflexivity|].
-      pose proof (di_seen _ _ _ _ I) as Hs. rewrite app_nil_r in Hs. subst seen. assumption.
-    + pose proof (di_seen _ _ _ _ I) as Hseen.
-      pose proof (di_nodup _ _ _ _ I) as Hnd.
+    + simpl. exists st, proc, pending. split; [reflexivity|].
+      pose proof (di_seen _ _ _ _ _ I) as Hs. rewrite app_nil_r in Hs. subst seen. assumption.
+    + pose proof (di_seen _ _ _ _ _ I) as Hseen.
+      pose proof (di_nodup _ _ _ _ _ I) as Hnd.
+      assert (Hproc_seen : forall y, In y proc -> In y seen).
+      { intros y Hy. rewrite Hseen. apply in_or_app. now left. }
       assert (Hh_seen : In h seen) by (rewrite Hseen; apply in_or_app; right; now left).
       assert (Hh_proc : ~ In h proc).
       { rewrite Hseen in Hnd. apply NoDup_remove_2 in Hnd. intro H. apply Hnd.
         apply in_or_app. now left. }
       assert (Hh_B : In h B).
-      { destruct (di_sub _ _ _ _ I h Hh_seen) as [->|H]; [assumption|now apply wf_sub]. }
+      { destruct (di_sub _ _ _ _ _ I h Hh_seen) as [->|H]; [assumption|now apply wf_sub]. }
       assert (Hh_b : memb h (blobs st) = true).
-      { apply memb_In. apply (di_b _ _ _ _ I). split; assumption. }
-      cbn [delete_loop]. unfold delete_one. rewrite Hh_b. rewrite (di_a _ _ _ _ I).
-      cbn [andb fixF3 fixF4 cfg_fixed negb orb].
+      { apply memb_In. apply (di_b _ _ _ _ _ I). split; assumption. }
+      cbn [delete_loop]. unfold delete_one. rewrite Hh_b. rewrite (di_a _ _ _ _ _ I).
+      cbn [andb fixF3 fixF4 fixLeaf skipLinked fixHold cfg_fixed negb orb app].
       set (st' := {| blobs := removeb h (blobs st);
                      idx := filter (fun e => negb (snd e =? h)) (idx st);
                      gnodes := removeb h (gnodes st);
@@ -494,15 +586,24 @@ Proof.
       set (refs := if manifest h
                    then filter (fun r => negb (is_tagged st r)) (referrers succ subject (gnodes st) h)
                    else []).
-      set (dang' := filter (fun d => negb (is_tagged st' d)) (danglings succ (gnodes st) h)).
-      set (batch := ord k (refs ++ dang')).
-      set (fresh := dedup (filter (fun y => negb (memb y seen)) batch)).
-      assert (Hfresh : forall y, In y fresh <-> (In y refs \/ In y dang') /\ ~ In y seen).
-      { intro y. unfold fresh, batch. rewrite dedup_In, filter_In, ord_perm, in_app_iff.
+      set (dang' := filter (fun d => memb d (blobs st') && negb (is_tagged st' d))
+                           (danglings succ (gnodes st) h)).
+      set (fresh := dedup (filter (fun y => negb (memb y seen)) (ord k dang'))).
+      set (seen1 := seen ++ fresh).
+      set (cand := dedup (filter (fun r => negb (memb r seen1)) (pending ++ ord k refs))).
+      set (ready := filter (fun r => negb (held succ subject (gnodes st') seen1 r)) cand).
+      set (rest := filter (held succ subject (gnodes st') seen1) cand).
+      assert (Hg' : forall y, In y (gnodes st') <-> In y G /\ ~ In y (proc ++ [h])).
+      { intro y. unfold st'. cbn [gnodes]. rewrite removeb_In, (di_g _ _ _ _ _ I), in_app_iff.
+        simpl. split.
+        - intros [[H1 H2] H3]. split; [assumption|]. intros [H|[H|[]]]; [tauto|congruence].
+        - intros [H1 H2]. repeat split; try assumption; intro H; apply H2; [now left|right; left; congruence]. }
+      assert (Hfresh : forall y, In y fresh <-> In y dang' /\ ~ In y seen).
+      { intro y. unfold fresh. rewrite dedup_In, filter_In, ord_perm.
         rewrite negb_true_iff, memb_false. tauto. }
       assert (Hidx' : forall e, In e (idx st') <-> In e (idx st0) /\ ~ In (snd e) (proc ++ [h])).
       { intro e. unfold st'. cbn [idx]. rewrite filter_In, negb_true_iff, Nat.eqb_neq.
-        rewrite (di_i _ _ _ _ I), in_app_iff. simpl. split.
+        rewrite (di_i _ _ _ _ _ I), in_app_iff. simpl. split.
         - intros [[H1 H2] H3]. split; [assumption|]. intros [H|[H|[]]]; [now apply H2|]. congruence.
         - intros [H1 H2]. split; [split; [assumption|]|]; intro H; apply H2; [now left|].
           right. left. congruence. }
@@ -511,87 +612,138 @@ Proof.
       { intro r. unfold refs. destruct (manifest h).
         - rewrite filter_In, referrers_In, negb_true_iff. split.
           + intros [[Hg Hs] Ht]. repeat split; try assumption.
-            rewrite <- (tagged_same st proc r (di_i _ _ _ _ I)); [assumption|].
-            apply (di_g _ _ _ _ I) in Hg. tauto.
+            rewrite <- (tagged_same st proc r (di_i _ _ _ _ _ I)); [assumption|].
+            apply (di_g _ _ _ _ _ I) in Hg. tauto.
           + intros (_ & Hg & Hs & Ht). repeat split; try assumption.
-            rewrite (tagged_same st proc r (di_i _ _ _ _ I)); [assumption|].
-            apply (di_g _ _ _ _ I) in Hg. tauto.
+            rewrite (tagged_same st proc r (di_i _ _ _ _ _ I)); [assumption|].
+            apply (di_g _ _ _ _ _ I) in Hg. tauto.
         - simpl. split; [tauto|]. intros [H _]. discriminate. }
       assert (Hdang : forall d, In d dang' <->
                 In d (danglings succ (gnodes st) h) /\ is_tagged st0 d = false).
-      { intro d. unfold dang'. rewrite filter_In, negb_true_iff.
-        split; intros [Hd Ht]; (split; [assumption|]).
-        - rewrite <- (tagged_same st' (proc ++ [h]) d Hidx'); [assumption|].
-          apply danglings_In in Hd as (_ & Hs & Hg & _). apply (di_g _ _ _ _ I) in Hg.
-          rewrite in_app_iff. simpl. intros [H|[H|[]]]; [tauto|].
-          apply succ_lt in Hs. lia.
-        - rewrite (tagged_same st' (proc ++ [h]) d Hidx'); [assumption|].
-          apply danglings_In in Hd as (_ & Hs & Hg & _). apply (di_g _ _ _ _ I) in Hg.
-          rewrite in_app_iff. simpl. intros [H|[H|[]]]; [tauto|].
-          apply succ_lt in Hs. lia. }
-      assert (I' : DInv st' (q ++ fresh) (seen ++ fresh) (proc ++ [h])).
+      { intro d. unfold dang'. rewrite filter_In, andb_true_iff, negb_true_iff, memb_In.
+        assert (Hfacts : In d (danglings succ (gnodes st) h) ->
+                         ~ In d (proc ++ [h]) /\ In d (blobs st')).
+        { intro Hd. apply danglings_In in Hd as (_ & Hs & Hg & _). apply (di_g _ _ _ _ _ I) in Hg.
+          apply succ_lt in Hs. split.
+          - rewrite in_app_iff. simpl. intros [H|[H|[]]]; [tauto|lia].
+          - unfold st'. cbn [blobs]. apply removeb_In. split; [|lia].
+            apply (di_b _ _ _ _ _ I). split; [apply wf_sub|]; tauto. }
+        split.
+        - intros (Hd & _ & Ht). split; [assumption|]. destruct (Hfacts Hd) as [Hp _].
+          rewrite <- (tagged_same st' (proc ++ [h]) d Hidx'); assumption.
+        - intros (Hd & Ht). destruct (Hfacts Hd) as [Hp Hb]. repeat split; try assumption.
+          rewrite (tagged_same st' (proc ++ [h]) d Hidx'); assumption. }
+      (* everything that waits after this step, before the pass over pending *)
+      assert (Hwait1 : forall r, In r (pending ++ ord k refs) -> waiting (proc ++ [h]) r).
+      { intros r Hr. apply in_app_or in Hr as [Hr|Hr].
+        - destruct (di_pend _ _ _ _ _ I r Hr) as (HG & Ht & m & Hm & Hman & Hs).
+          repeat split; try assumption. exists m. repeat split; try assumption. apply in_or_app. now left.
+        - apply ord_perm in Hr. apply Hrefs in Hr as (Hman & Hg & Hs & Ht).
+          apply (di_g _ _ _ _ _ I) in Hg as [Hg _]. repeat split; try assumption.
+          exists h. repeat split; try assumption. apply in_or_app. right. now left. }
+      assert (Hcand : forall r, In r cand <-> In r (pending ++ ord k refs) /\ ~ In r seen1).
+      { intro r. unfold cand. rewrite dedup_In, filter_In, negb_true_iff, memb_false. tauto. }
+      assert (Hready : forall r, In r ready <->
+                In r cand /\ ~ exists p, In p (gnodes st') /\ holds p r /\ ~ In p seen1).
+      { intro r. unfold ready. rewrite filter_In, negb_true_iff. split; intros [Hc Hh]; (split; [assumption|]).
+        - intro E. apply held_spec in E. congruence.
+        - destruct (held succ subject (gnodes st') seen1 r) eqn:E; [|reflexivity].
+          apply held_spec in E. contradiction. }
+      assert (Hrest : forall r, In r rest <->
+                In r cand /\ exists p, In p (gnodes st') /\ holds p r /\ ~ In p seen1).
+      { intro r. unfold rest. rewrite filter_In, held_spec. tauto. }
+      assert (Hsound1 : forall y, In y seen1 -> Gone y).
+      { intros y Hy. apply in_app_or in Hy as [Hy|Hy]; [now apply (di_sound _ _ _ _ _ I)|].
+        apply Hfresh in Hy as [Hy _].
+        apply Hdang in Hy as [Hd Ht]. apply danglings_In in Hd as (Hhg & Hs & Hg & Hall).
+        apply (di_g _ _ _ _ _ I) in Hg as [Hg _]. apply (di_g _ _ _ _ _ I) in Hhg as [HhG _].
+        apply G_dang; try assumption; [eauto|].
+        intros p Hp Hps. destruct (in_dec Nat.eq_dec p proc) as [Hpp|Hpp].
+        - apply (di_sound _ _ _ _ _ I). now apply Hproc_seen.
+        - assert (p = h) by (apply Hall; [apply (di_g _ _ _ _ _ I); tauto|assumption]).
+          subst. now apply (di_sound _ _ _ _ _ I). }
+      assert (Hproc1 : forall y, In y (proc ++ [h]) -> In y seen1).
+      { intros y Hy. apply in_or_app. left. apply in_app_or in Hy as [Hy|[<-|[]]]; auto. }
+      assert (I' : DInv st' (q ++ fresh ++ ready) (seen1 ++ ready) (proc ++ [h]) rest).
       { constructor.
-        - rewrite Hseen. rewrite <- !app_assoc. reflexivity.
-        - apply NoDup_app_intro; [assumption|apply dedup_NoDup|].
-          intros y Hy Hy'. apply Hfresh in Hy'. tauto.
-        - apply in_or_app. left. apply (di_x _ _ _ _ I).
-        - intro y. unfold st'. cbn [gnodes]. rewrite removeb_In, (di_g _ _ _ _ I), in_app_iff.
-          simpl. split.
-          + intros [[H1 H2] H3]. split; [assumption|]. intros [H|[H|[]]]; [tauto|congruence].
-          + intros [H1 H2]. repeat split; try assumption; intro H; apply H2; [now left|right; left; congruence].
-        - intro y. unfold st'. cbn [blobs]. rewrite removeb_In, (di_b _ _ _ _ I), in_app_iff.
+        - unfold seen1. rewrite Hseen. rewrite <- !app_assoc. reflexivity.
+        - apply NoDup_app_intro.
+          + apply NoDup_app_intro; [assumption|apply dedup_NoDup|].
+            intros y Hy Hy'. apply Hfresh in Hy'. tauto.
+          + unfold ready. apply NoDup_filter. apply dedup_NoDup.
+          + intros y Hy Hy'. apply Hready in Hy' as [Hy' _]. apply Hcand in Hy'. tauto.
+        - apply in_or_app. left. apply in_or_app. left. apply (di_x _ _ _ _ _ I).
+        - exact Hg'.
+        - intro y. unfold st'. cbn [blobs]. rewrite removeb_In, (di_b _ _ _ _ _ I), in_app_iff.
           simpl. split.
           + intros [[H1 H2] H3]. split; [assumption|]. intros [H|[H|[]]]; [tauto|congruence].
           + intros [H1 H2]. repeat split; try assumption; intro H; apply H2; [now left|right; left; congruence].
         - exact Hidx'.
         - reflexivity.
-        - apply (di_s _ _ _ _ I).
-        - intros y Hy. apply in_app_or in Hy as [Hy|Hy]; [now apply (di_sound _ _ _ _ I)|].
-          apply Hfresh in Hy as [[Hy|Hy] _].
-          + apply Hrefs in Hy as (Hm & Hg & Hs & Ht). apply (di_g _ _ _ _ I) in Hg as [Hg _].
-            eapply G_ref; eauto. now apply (di_sound _ _ _ _ I).
-          + apply Hdang in Hy as [Hd Ht]. apply danglings_In in Hd as (Hhg & Hs & Hg & Hall).
-            apply (di_g _ _ _ _ I) in Hg as [Hg _]. apply (di_g _ _ _ _ I) in Hhg as [HhG _].
-            apply G_dang; try assumption; [eauto|].
-            intros p Hp Hps. destruct (in_dec Nat.eq_dec p proc) as [Hpp|Hpp].
-            * apply (di_sound _ _ _ _ I). rewrite Hseen. apply in_or_app. now left.
-            * assert (p = h) by (apply Hall; [apply (di_g _ _ _ _ I); tauto|assumption]).
-              subst. now apply (di_sound _ _ _ _ I).
-        - intros y Hy. apply in_app_or in Hy as [Hy|Hy]; [now apply (di_sub _ _ _ _ I)|].
-          right. apply Hfresh in Hy as [[Hy|Hy] _].
-          + apply Hrefs in Hy as (_ & Hg & _). apply (di_g _ _ _ _ I) in Hg. tauto.
-          + apply Hdang in Hy as [Hd _]. apply danglings_In in Hd as (_ & _ & Hg & _).
-            apply (di_g _ _ _ _ I) in Hg. tauto.
-        - intros m r Hm Hman Hr Hs Ht. apply in_app_or in Hm as [Hm|[<-|[]]].
-          + apply in_or_app. left. eapply (di_ref _ _ _ _ I); eauto.
-          + destruct (in_dec Nat.eq_dec r seen) as [Hrs|Hrs]; apply in_or_app; [now left|right].
-            apply Hfresh. split; [|assumption]. left. apply Hrefs. repeat split; try assumption.
-            apply (di_g _ _ _ _ I). split; [assumption|]. intro Hp. apply Hrs. rewrite Hseen.
-            apply in_or_app. now left.
+        - apply (di_s _ _ _ _ _ I).
+        - intros y Hy. apply in_app_or in Hy as [Hy|Hy]; [now apply Hsound1|].
+          apply Hready in Hy as [Hc Hno]. apply Hcand in Hc as [Hc _].
+          destruct (Hwait1 y Hc) as (HG & Ht & m & Hm & Hman & Hs).
+          apply (G_ref y m); try assumption.
+          + apply Hsound1. now apply Hproc1.
+          + intros p Hp Hh. destruct (in_dec Nat.eq_dec p seen1) as [Hps|Hps]; [now apply Hsound1|].
+            exfalso. apply Hno. exists p. repeat split; try apply Hh; try assumption.
+            apply Hg'. split; [assumption|]. intro Hpp. apply Hps. now apply Hproc1.
+        - intros y Hy. apply in_app_or in Hy as [Hy|Hy].
+          + apply in_app_or in Hy as [Hy|Hy]; [now apply (di_sub _ _ _ _ _ I)|].
+            right. apply Hfresh in Hy as [Hy _]. apply Hdang in Hy as [Hd _].
+            apply danglings_In in Hd as (_ & _ & Hg & _). apply (di_g _ _ _ _ _ I) in Hg. tauto.
+          + right. apply Hready in Hy as [Hc _]. apply Hcand in Hc as [Hc _].
+            now destruct (Hwait1 y Hc).
+        - intros r Hw. destruct (in_dec Nat.eq_dec r seen1) as [Hrs|Hrs];
+            [left; apply in_or_app; now left|].
+          assert (Hc : In r cand).
+          { apply Hcand. split; [|assumption].
+            destruct Hw as (HG & Ht & m & Hm & Hman & Hs). apply in_app_or in Hm as [Hm|[<-|[]]].
+            - destruct (di_ref _ _ _ _ _ I r) as [H|H].
+              + repeat split; try assumption. eauto.
+              + exfalso. apply Hrs. apply in_or_app. now left.
+              + apply in_or_app. now left.
+            - apply in_or_app. right. apply ord_perm. apply Hrefs. repeat split; try assumption.
+              apply (di_g _ _ _ _ _ I). split; [assumption|]. intro Hp. apply Hrs. apply Hproc1.
+              apply in_or_app. now left. }
+          destruct (held succ subject (gnodes st') seen1 r) eqn:E.
+          + right. unfold rest. apply filter_In. split; assumption.
+          + left. apply in_or_app. right. unfold ready. apply filter_In. split; [assumption|].
+            now rewrite E.
+        - intros r Hr. apply Hrest in Hr as [Hc _]. apply Hcand in Hc as [Hc _]. now apply Hwait1.
+        - intros Hq r Hr Hrs.
+          assert (Hre : ready = []).
+          { destruct q; [|discriminate]. destruct fresh; [|discriminate]. exact Hq. }
+          apply Hrest in Hr as [_ (p & Hp & Hh & Hps)]. exists p. repeat split; try apply Hh.
+          + apply Hg' in Hp. tauto.
+          + rewrite Hre, app_nil_r. assumption.
         - intros d Hd Ht Hex Hall.
-          destruct (in_dec Nat.eq_dec d seen) as [Hds|Hds]; apply in_or_app; [now left|].
-          assert (Hdp : ~ In d proc).
-          { intro Hp. apply Hds. rewrite Hseen. apply in_or_app. now left. }
+          destruct (in_dec Nat.eq_dec d seen) as [Hds|Hds];
+            [apply in_or_app; left; apply in_or_app; now left|].
+          assert (Hdp : ~ In d proc) by (intro Hp; apply Hds; now apply Hproc_seen).
+          apply in_or_app. left. apply in_or_app.
           destruct (in_dec Nat.eq_dec h G) as [HhG|HhG].
           + destruct (in_dec Nat.eq_dec d (succ h)) as [Hsh|Hsh].
-            * right. apply Hfresh. split; [|assumption]. right. apply Hdang. split; [|assumption].
+            * right. apply Hfresh. split; [|assumption]. apply Hdang. split; [|assumption].
               apply danglings_In. repeat split; try assumption.
-              -- apply (di_g _ _ _ _ I). tauto.
-              -- apply (di_g _ _ _ _ I). tauto.
-              -- intros p Hp Hps. apply (di_g _ _ _ _ I) in Hp as [HpG Hpp].
+              -- apply (di_g _ _ _ _ _ I). tauto.
+              -- apply (di_g _ _ _ _ _ I). tauto.
+              -- intros p Hp Hps. apply (di_g _ _ _ _ _ I) in Hp as [HpG Hpp].
                  specialize (Hall p HpG Hps). apply in_app_or in Hall as [H|[H|[]]]; [tauto|congruence].
-            * left. apply (di_dang _ _ _ _ I); try assumption. intros p Hp Hps.
+            * left. apply (di_dang _ _ _ _ _ I); try assumption. intros p Hp Hps.
               specialize (Hall p Hp Hps). apply in_app_or in Hall as [H|[H|[]]]; [assumption|].
               subst. contradiction.
-          + left. apply (di_dang _ _ _ _ I); try assumption. intros p Hp Hps.
+          + left. apply (di_dang _ _ _ _ _ I); try assumption. intros p Hp Hps.
             specialize (Hall p Hp Hps). apply in_app_or in Hall as [H|[H|[]]]; [assumption|].
             subst. contradiction. }
-      destruct (IH (S k) st' (q ++ fresh) (seen ++ fresh) (proc ++ [h]) I') as (st2 & proc2 & H2 & I2).
+      destruct (IH (S k) st' (q ++ fresh ++ ready) (seen1 ++ ready) (proc ++ [h]) rest I')
+        as (st2 & proc2 & pend2 & H2 & I2).
       { rewrite app_length. simpl. lia. }
-      exists st2, proc2. split; [|assumption]. exact H2.
+      exists st2, proc2, pend2. split; [|assumption]. exact H2.
 Qed.
 
-Lemma DInv_init : DInv st0 [x] [x] [].
+Lemma DInv_init : DInv st0 [x] [x] [] [].
 Proof.
   constructor; try reflexivity; simpl.
   - constructor; [intros []|constructor].
@@ -602,17 +754,23 @@ Proof.
   - assumption.
   - intros y [<-|[]]. constructor.
   - intros y [<-|[]]. now left.
-  - intros m r [].
+  - intros r (_ & _ & m & [] & _).
+  - intros r [].
+  - discriminate.
   - intros d Hd Ht (p & Hp & Hps) Hall. destruct (Hall p Hp Hps).
 Qed.
 
-Lemma final_gone st' proc : DInv st' [] proc proc -> forall y, In y proc <-> Gone y.
+Lemma final_gone st' proc pend : DInv st' [] proc proc pend -> forall y, In y proc <-> Gone y.
 Proof.
-  intros I y. split; [apply (di_sound _ _ _ _ I)|].
-  induction 1 as [|r m _ IHm Hman Hr Hs Ht|d Hd Ht Hex _ IHp].
-  - apply (di_x _ _ _ _ I).
-  - eapply (di_ref _ _ _ _ I); eauto.
-  - apply (di_dang _ _ _ _ I); assumption.
+  intros I y. split; [apply (di_sound _ _ _ _ _ I)|].
+  induction 1 as [|r m _ IHm Hman Hr Hs Ht _ IHh|d Hd Ht Hex _ IHp].
+  - apply (di_x _ _ _ _ _ I).
+  - destruct (di_ref _ _ _ _ _ I r) as [H|H]; [|assumption|].
+    + repeat split; try assumption. eauto.
+    + destruct (in_dec Nat.eq_dec r proc) as [Hp|Hp]; [assumption|].
+      destruct (di_blocked _ _ _ _ _ I eq_refl r H Hp) as (p & HpG & Hh & Hps).
+      exfalso. apply Hps. now apply IHh.
+  - apply (di_dang _ _ _ _ _ I); assumption.
 Qed.
 
 (* Delete of the repaired code, AutoGC on: for every iteration order it returns Ok
@@ -627,22 +785,22 @@ Lemma delete_exact_sec :
     strays st' = strays st0 /\ autogc st' = autogc st0.
 Proof.
   unfold delete. cbn [fixF4 cfg_fixed]. unfold delete_fuel.
-  destruct (delete_loop_spec (S (S (length (gnodes st0)))) 0 st0 [x] [x] [] DInv_init)
-    as (st' & proc & Hd & I).
+  destruct (delete_loop_spec (S (S (length (gnodes st0)))) 0 st0 [x] [x] [] [] DInv_init)
+    as (st' & proc & pend & Hd & I).
   { simpl. fold G. lia. }
   exists st'. split; [exact Hd|].
-  pose proof (final_gone st' proc I) as HG. repeat split.
-  - apply (di_b _ _ _ _ I) in H. tauto.
-  - apply (di_b _ _ _ _ I) in H as [_ H]. now rewrite <- HG.
-  - intros [H1 H2]. apply (di_b _ _ _ _ I). rewrite HG. tauto.
-  - apply (di_g _ _ _ _ I) in H. tauto.
-  - apply (di_g _ _ _ _ I) in H as [_ H]. now rewrite <- HG.
-  - intros [H1 H2]. apply (di_g _ _ _ _ I). rewrite HG. tauto.
-  - apply (di_i _ _ _ _ I) in H. tauto.
-  - apply (di_i _ _ _ _ I) in H as [_ H]. now rewrite <- HG.
-  - intros [H1 H2]. apply (di_i _ _ _ _ I). rewrite HG. tauto.
-  - apply (di_s _ _ _ _ I).
-  - rewrite (di_a _ _ _ _ I). now rewrite auto_on.
+  pose proof (final_gone st' proc pend I) as HG. repeat split.
+  - apply (di_b _ _ _ _ _ I) in H. tauto.
+  - apply (di_b _ _ _ _ _ I) in H as [_ H]. now rewrite <- HG.
+  - intros [H1 H2]. apply (di_b _ _ _ _ _ I). rewrite HG. tauto.
+  - apply (di_g _ _ _ _ _ I) in H. tauto.
+  - apply (di_g _ _ _ _ _ I) in H as [_ H]. now rewrite <- HG.
+  - intros [H1 H2]. apply (di_g _ _ _ _ _ I). rewrite HG. tauto.
+  - apply (di_i _ _ _ _ _ I) in H. tauto.
+  - apply (di_i _ _ _ _ _ I) in H as [_ H]. now rewrite <- HG.
+  - intros [H1 H2]. apply (di_i _ _ _ _ _ I). rewrite HG. tauto.
+  - apply (di_s _ _ _ _ _ I).
+  - rewrite (di_a _ _ _ _ _ I). now rewrite auto_on.
 Qed.
 
 (* what the cascade never touches *)
@@ -652,22 +810,18 @@ Proof. destruct 1; intro; try assumption. congruence. Qed.
 Lemma gone_in_store y : Gone y -> y = x \/ In y G.
 Proof. destruct 1; auto. Qed.
 
+(* no surviving node lists a removed node: every holder of it is removed as well *)
+Lemma gone_holders y : Gone y -> y <> x -> forall p, In p G -> holds p y -> Gone p.
+Proof.
+  intros H Hne. destruct H as [|r m _ _ _ _ _ Hh|d _ _ _ Hall]; [congruence|exact Hh|].
+  intros p Hp [Hs _]. now apply Hall.
+Qed.
+
 End Delete.
 
 
 (* ------------------------------------------------------------------ *)
 (* consequences used by the property file *)
-
-(* a node removed by the dangling rule has no surviving predecessor *)
-Lemma gone_dangling_no_survivor st0 x y :
-  Gone st0 x y -> y <> x -> (forall m, subject y = Some m -> ~ Gone st0 x m) ->
-  forall p, In p (gnodes st0) -> In y (succ p) -> Gone st0 x p.
-Proof.
-  intros H Hne Hnr. destruct H as [|r m Hm _ _ Hs _|d _ _ _ Hall].
-  - congruence.
-  - exfalso. eapply Hnr; eauto.
-  - exact Hall.
-Qed.
 
 (* AutoGC off: exactly the target goes *)
 Lemma delete_plain st x ord :
@@ -680,10 +834,10 @@ Lemma delete_plain st x ord :
     strays st' = strays st /\ autogc st' = autogc st.
 Proof.
   intros Ho Ha Hx. apply memb_In in Hx. unfold delete, delete_fuel. cbn [fixF4 cfg_fixed].
-  cbn [delete_loop]. unfold delete_one. rewrite Hx, Ha. cbn [andb].
-  assert (E : ord 0 ([] ++ []) = []).
-  { destruct (ord 0 ([] ++ [])) as [|a l] eqn:E; [reflexivity|].
-    exfalso. assert (H : In a (ord 0 ([] ++ []))) by (rewrite E; now left).
+  cbn [delete_loop]. unfold delete_one. rewrite Hx, Ha. cbn [andb fixHold cfg_fixed app].
+  assert (E : ord 0 [] = []).
+  { destruct (ord 0 []) as [|a l] eqn:E; [reflexivity|].
+    exfalso. assert (H : In a (ord 0 [])) by (rewrite E; now left).
     apply Ho in H. destruct H. }
   rewrite E. simpl. eexists. split; [reflexivity|]. simpl. repeat split.
 Qed.
@@ -693,7 +847,7 @@ Lemma delete_absent st x ord c :
   ~ In x (blobs st) -> snd (delete succ subject manifest c ord st x) = ENotFound.
 Proof.
   intro Hx. apply memb_false in Hx. unfold delete.
-  assert (H : forall f, snd (delete_loop succ subject manifest c ord (S f) 0 st [x] [x]) = ENotFound).
+  assert (H : forall f, snd (delete_loop succ subject manifest c ord (S f) 0 st [x] [x] []) = ENotFound).
   { intro f. cbn [delete_loop]. unfold delete_one. rewrite Hx. reflexivity. }
   destruct (fixF4 c); [unfold delete_fuel|]; apply H.
 Qed.
@@ -701,10 +855,10 @@ Qed.
 (* graph nodes are stored blobs: invariant of every history *)
 Definition wf (st : state) : Prop := forall y, In y (gnodes st) -> In y (blobs st).
 
-Lemma delete_loop_wf c ord : forall fuel k st queue seen,
-  wf st -> wf (fst (delete_loop succ subject manifest c ord fuel k st queue seen)).
+Lemma delete_loop_wf c ord : forall fuel k st queue seen pending,
+  wf st -> wf (fst (delete_loop succ subject manifest c ord fuel k st queue seen pending)).
 Proof.
-  induction fuel as [|f IH]; intros k st queue seen Hw; [exact Hw|].
+  induction fuel as [|f IH]; intros k st queue seen pending Hw; [exact Hw|].
   cbn [delete_loop]. destruct queue as [|h q]; [exact Hw|].
   unfold delete_one.
   assert (Hw' : wf {| blobs := removeb h (blobs st);
@@ -718,7 +872,11 @@ Qed.
 
 Lemma step_wf kl st o : wf st -> wf (fst (step succ subject manifest cfg_fixed kl st o)).
 Proof.
-  intro Hw. destruct o as [n|n t|t|n| |b|s]; simpl.
+  intro Hw. destruct o as [n|n t|t|n| |b|s|]; simpl.
+  8: { intros y Hy. cbn [gnodes blobs] in *. apply (proj1 (dedup_In _ _)) in Hy.
+       apply in_flat_map in Hy as (n & _ & Hy).
+       change (clo succ manifest cfg_fixed) with (closure succ) in Hy.
+       apply closure_spec in Hy. eapply Reach_in; eauto. }
   - unfold push. destruct (memb n (blobs st)); [exact Hw|]. intros y Hy. simpl in *.
     destruct Hy as [->|Hy]; [now left|]. right. apply removeb_In in Hy as [Hy _]. auto.
   - unfold tag. destruct (memb n (blobs st)); exact Hw.
@@ -738,6 +896,120 @@ Proof.
   apply H. intros y [].
 Qed.
 
+
+Lemma filter_all {A} (f : A -> bool) l : (forall x, In x l -> f x = true) -> filter f l = l.
+Proof.
+  induction l as [|a l IH]; intro H; [reflexivity|]. simpl. rewrite (H a (or_introl eq_refl)).
+  f_equal. apply IH. intros x Hx. apply H. now right.
+Qed.
+
+Lemma Reach_mono bl bl' n x : (forall y, In y bl -> In y bl') -> Reach bl n x -> Reach bl' n x.
+Proof.
+  intros Hs H. induction H as [n Hn|n s x Hn Hsn _ IH]; [apply R_refl; auto|eapply R_step; eauto].
+Qed.
+
+Lemma Reach_inside bl (g : list nat) n x :
+  (forall y s, In y g -> In s (succ y) -> In s bl -> In s g) ->
+  Reach bl n x -> In n g ->
+  Reach (filter (fun y => memb y g) bl) n x.
+Proof.
+  intros Hc H. induction H as [n Hn|n s x Hn Hsn Hr IH]; intro Hg.
+  - apply R_refl. apply filter_In. split; [assumption|now apply memb_In].
+  - eapply R_step; [apply filter_In; split; [assumption|now apply memb_In]|exact Hsn|].
+    apply IH. eapply Hc; eauto. eapply Reach_start; eauto.
+Qed.
+
+(* reopening the store right after GC (the rebuilt index is what index.json holds) gives the
+   same storage, the same references and the same graph *)
+Lemma gc_reopen : forall kl ords st st',
+  (forall i n, In n (ords i) <-> In n (candidates (idx st))) ->
+  gc succ subject manifest cfg_fixed kl ords st = (st', Ok) ->
+  let st2 := fst (step succ subject manifest cfg_fixed kl st' OReopen) in
+  blobs st2 = blobs st' /\ idx st2 = idx st' /\ strays st2 = strays st' /\
+  (forall x, In x (gnodes st2) <-> In x (gnodes st')).
+Proof.
+  intros kl ords st st' Ho Hgc. unfold gc in Hgc.
+  destruct (gc_index_reload st ords Ho kl) as (ix' & g & Hg & Hclosed & Hent & Hreach & Hns).
+  rewrite Hg in Hgc. injection Hgc as <-. cbn [step fst blobs idx strays gnodes].
+  assert (Hf : filter (fun e : ref * nat => match fst e with RStale _ => false | _ => true end) ix' = ix').
+  { apply filter_all. exact Hns. }
+  rewrite Hf. repeat split.
+  - rewrite !dedup_In. intro H. apply in_flat_map in H as (n & Hn & Hx).
+    change (clo succ manifest cfg_fixed) with (closure succ) in Hx. apply closure_spec in Hx.
+    apply in_map_iff in Hn as (e & <- & He).
+    assert (Hx' : Reach (blobs st) (snd e) x).
+    { eapply Reach_mono; [|exact Hx]. intros y Hy. apply filter_In in Hy. tauto. }
+    eapply closed_reach; [exact Hclosed|exact Hx'|].
+    apply Reach_start in Hx. apply filter_In in Hx as [_ Hx]. now apply memb_In.
+  - rewrite !dedup_In. intro Hx. destruct (Hreach x Hx) as (e & He & Hr).
+    apply in_flat_map. exists (snd e). split; [apply in_map; exact He|].
+    change (clo succ manifest cfg_fixed) with (closure succ). apply closure_spec.
+    apply Reach_inside; try assumption. apply Hent; [assumption|]. eapply Reach_start; eauto.
+Qed.
+
+(* the repaired code never records a stale tag-set entry: [is_tagged] is "has a tag" *)
+Definition no_stale (st : state) : Prop := forall t n, ~ In (RStale t, n) (idx st).
+
+Lemma delete_loop_no_stale c ord : forall fuel k st queue seen pending,
+  no_stale st -> no_stale (fst (delete_loop succ subject manifest c ord fuel k st queue seen pending)).
+Proof.
+  induction fuel as [|f IH]; intros k st queue seen pending Hw; [exact Hw|].
+  cbn [delete_loop]. destruct queue as [|h q]; [exact Hw|].
+  unfold delete_one.
+  assert (Hw' : no_stale {| blobs := removeb h (blobs st);
+                            idx := filter (fun e => negb (snd e =? h)) (idx st);
+                            gnodes := removeb h (gnodes st);
+                            strays := strays st; autogc := autogc st |}).
+  { intros t n H. simpl in H. apply filter_In in H as [H _]. now apply (Hw t n). }
+  destruct (memb h (blobs st)); [|exact Hw'].
+  apply IH. exact Hw'.
+Qed.
+
+Lemma set_ref_stale r m ix t n : In (RStale t, n) (set_ref r m ix) -> r = RStale t \/ In (RStale t, n) ix.
+Proof.
+  unfold set_ref. intros [H|H]; [left; congruence|]. apply filter_In in H. tauto.
+Qed.
+
+Lemma step_no_stale kl st o : no_stale st -> no_stale (fst (step succ subject manifest cfg_fixed kl st o)).
+Proof.
+  intro Hw. destruct o as [n|n t|t|n| |b|s|]; simpl.
+  8: { intros t m H. cbn [idx] in H. apply filter_In in H as [H _]. now apply (Hw t m). }
+  - unfold push. destruct (memb n (blobs st)); [exact Hw|]. intros t m H. cbn [fst idx] in H.
+    destruct (manifest n); [|now apply (Hw t m)].
+    apply set_ref_stale in H as [H|H]; [discriminate|now apply (Hw t m)].
+  - unfold tag. destruct (memb n (blobs st)); [|exact Hw]. intros t' m H. cbn [fst idx] in H.
+    apply set_ref_stale in H as [H|H]; [discriminate|].
+    apply set_ref_stale in H as [H|H]; [discriminate|].
+    destruct (lookup (RTag t) (idx st)); cbn [fixStale cfg_fixed orb app] in H; now apply (Hw t' m).
+  - unfold untag. destruct (lookup (RTag t) (idx st)); [|exact Hw]. intros t' m H. simpl in H.
+    apply filter_In in H as [H _]. now apply (Hw t' m).
+  - unfold delete. apply delete_loop_no_stale. exact Hw.
+  - unfold gc. destruct (gc_index succ subject manifest cfg_fixed kl _ st) as [[ix g]|] eqn:E; [|exact Hw].
+    intros t m H. simpl in H. unfold gc_index in E.
+    destruct (gc_passes _ _ _ _ _ _ _ _ _ _) as [[g' kept]|]; [|discriminate].
+    injection E as <- <-. apply in_app_or in H as [H|H].
+    + apply filter_In in H as [_ H]. discriminate.
+    + apply in_map_iff in H as (x & Hx & _). discriminate.
+  - exact Hw.
+  - exact Hw.
+Qed.
+
+Lemma run_no_stale kl ops :
+  no_stale (fold_left (fun st o => fst (step succ subject manifest cfg_fixed kl st o)) ops init).
+Proof.
+  assert (H : forall st, no_stale st ->
+     no_stale (fold_left (fun st o => fst (step succ subject manifest cfg_fixed kl st o)) ops st)).
+  { induction ops as [|o ops IH]; intros st Hw; [exact Hw|]. simpl. apply IH. now apply step_no_stale. }
+  apply H. intros t n [].
+Qed.
+
+Lemma no_stale_tagged st n : no_stale st -> (is_tagged st n = true <-> exists t, In (RTag t, n) (idx st)).
+Proof.
+  intro Hn. rewrite is_tagged_spec. split.
+  - intros (t & [H|H]); [eauto|]. exfalso. now apply (Hn t n).
+  - intros (t & H). eauto.
+Qed.
+
 End Proofs.
 
 (* ================================================================== *)
@@ -746,22 +1018,24 @@ End Proofs.
 Definition succ_w (n : nat) : list nat :=
   match n with
   | 1 => [0] | 2 => [1; 0] | 3 => [1; 2] | 4 => [2] | 5 => [0] | 6 => [1; 5] | 7 => [5; 0]
+  | 8 => [2; 0]
   | _ => []
   end.
 Definition subject_w (n : nat) : option nat :=
-  match n with 2 => Some 1 | 3 => Some 1 | 6 => Some 1 | 7 => Some 5 | _ => None end.
+  match n with 2 => Some 1 | 3 => Some 1 | 6 => Some 1 | 7 => Some 5 | 8 => Some 2 | _ => None end.
 Definition manifest_w (n : nat) : bool := match n with 0 => false | _ => true end.
 (* 0 blob; 1 image; 2 image with subject 1; 3 index with subject 1 listing 2;
-   4 index listing 2; 5 image; 6 index with subject 1 listing 5; 7 image with subject 5 *)
+   4 index listing 2; 5 image; 6 index with subject 1 listing 5; 7 image with subject 5;
+   8 image with subject 2 *)
 
 Lemma succ_w_lt : forall n s, In s (succ_w n) -> s < n.
 Proof.
-  intros n s. do 8 (destruct n as [|n]; [simpl; intuition lia|]). simpl. tauto.
+  intros n s. do 9 (destruct n as [|n]; [simpl; intuition lia|]). simpl. tauto.
 Qed.
 
 Lemma subj_w_succ : forall n s, subject_w n = Some s -> In s (succ_w n).
 Proof.
-  intros n s. do 8 (destruct n as [|n]; [simpl; intro H; try discriminate; injection H as <-; tauto|]).
+  intros n s. do 9 (destruct n as [|n]; [simpl; intro H; try discriminate; injection H as <-; tauto|]).
   simpl. discriminate.
 Qed.
 
@@ -777,7 +1051,8 @@ Lemma gc_orig_hangs :
 Proof. vm_compute. reflexivity. Qed.
 
 (* F3: without the repair a tagged referrer is deleted together with its tag *)
-Definition cfg_noF3 := {| fixF1 := true; fixF3 := false; fixF4 := true; fixF13 := true |}.
+Definition cfg_noF3 := {| fixF1 := true; fixF3 := false; fixF4 := true; fixF13 := true;
+  fixStale := true; fixLeaf := true; skipLinked := false; fixHold := true |}.
 Lemma delete_noF3_removes_tagged :
   let st := run_w cfg_fixed [OPush 0; OPush 1; OPush 2; OTag 2 0] in
   let st' := fst (delete succ_w subject_w manifest_w cfg_noF3 ord_id st 1) in
@@ -785,7 +1060,8 @@ Lemma delete_noF3_removes_tagged :
 Proof. vm_compute. intuition (try discriminate). Qed.
 
 (* F4: without the repair the outcome depends on the iteration order *)
-Definition cfg_noF4 := {| fixF1 := true; fixF3 := true; fixF4 := false; fixF13 := true |}.
+Definition cfg_noF4 := {| fixF1 := true; fixF3 := true; fixF4 := false; fixF13 := true;
+  fixStale := true; fixLeaf := true; skipLinked := false; fixHold := false |}.
 Definition ord_rev (k : nat) (l : list nat) : list nat := rev l.
 Lemma delete_noF4_order_dependent :
   let st := run_w cfg_fixed [OPush 0; OPush 1; OPush 2; OPush 3] in
@@ -794,11 +1070,12 @@ Lemma delete_noF4_order_dependent :
 Proof. vm_compute. split; reflexivity. Qed.
 
 (* F13: a single referrer pass keeps 7 or sweeps it depending on the order *)
-Definition cfg_noF13 := {| fixF1 := true; fixF3 := true; fixF4 := true; fixF13 := false |}.
+Definition cfg_noF13 := {| fixF1 := true; fixF3 := true; fixF4 := true; fixF13 := false;
+  fixStale := true; fixLeaf := true; skipLinked := false; fixHold := true |}.
 Lemma gc_noF13_order_dependent :
   let st := run_w cfg_fixed [OPush 0; OPush 1; OPush 5; OPush 6; OPush 7; OTag 1 0] in
-  In 7 (blobs (fst (gc succ_w subject_w cfg_noF13 false (fun _ => [6; 7; 5]) st))) /\
-  ~ In 7 (blobs (fst (gc succ_w subject_w cfg_noF13 false (fun _ => [7; 6; 5]) st))) /\
+  In 7 (blobs (fst (gc succ_w subject_w manifest_w cfg_noF13 false (fun _ => [6; 7; 5]) st))) /\
+  ~ In 7 (blobs (fst (gc succ_w subject_w manifest_w cfg_noF13 false (fun _ => [7; 6; 5]) st))) /\
   (forall n, In n [6; 7; 5] <-> In n (candidates (idx st))).
 Proof.
   vm_compute. split; [|split].
@@ -807,13 +1084,62 @@ Proof.
   - intro n. tauto.
 Qed.
 
-(* known finding: a referrer is removed although a surviving (tagged) index lists it *)
+(* before the repair of Delete's referrer rule: the referrer 2 of the deleted manifest 1 is
+   removed although the surviving tagged index 4 lists it (repaired: 2 stays) *)
+Definition cfg_noHold := {| fixF1 := true; fixF3 := true; fixF4 := true; fixF13 := true;
+  fixStale := true; fixLeaf := true; skipLinked := false; fixHold := false |}.
 Lemma delete_referrer_still_linked :
   let st := run_w cfg_fixed [OPush 0; OPush 1; OPush 2; OPush 4; OTag 4 0] in
-  let st' := fst (delete succ_w subject_w manifest_w cfg_fixed ord_id st 1) in
-  snd (delete succ_w subject_w manifest_w cfg_fixed ord_id st 1) = Ok /\
-  ~ In 2 (blobs st') /\ In 4 (gnodes st') /\ In 2 (succ_w 4).
+  let st' := fst (delete succ_w subject_w manifest_w cfg_noHold ord_id st 1) in
+  let fx' := fst (delete succ_w subject_w manifest_w cfg_fixed ord_id st 1) in
+  snd (delete succ_w subject_w manifest_w cfg_noHold ord_id st 1) = Ok /\
+  ~ In 2 (blobs st') /\ In 4 (gnodes st') /\ In 2 (succ_w 4) /\ subject_w 4 = None /\
+  blobs fx' = [4; 2; 0].
 Proof. vm_compute. intuition discriminate. Qed.
+
+(* pre-repair resolver.Memory.Tag: tag 0 is moved from 5 to 1; deleting the index 6 that
+   lists 5 leaves 5 behind because its tag set still holds the moved reference *)
+Definition cfg_noStale := {| fixF1 := true; fixF3 := true; fixF4 := true; fixF13 := true;
+  fixStale := false; fixLeaf := true; skipLinked := false; fixHold := true |}.
+Definition stale_ops := [OPush 0; OPush 5; OPush 6; OPush 1; OTag 5 0; OTag 1 0].
+Lemma delete_stale_tag_leaves_garbage :
+  let st := run_w cfg_noStale stale_ops in
+  let st' := fst (delete succ_w subject_w manifest_w cfg_noStale ord_id st 6) in
+  let fx := run_w cfg_fixed stale_ops in
+  let fx' := fst (delete succ_w subject_w manifest_w cfg_fixed ord_id fx 6) in
+  lookup (RTag 0) (idx st) = Some 1 /\ (forall t, ~ In (RTag t, 5) (idx st)) /\
+  In 5 (blobs st') /\ (forall p, In p (gnodes st') -> ~ In 5 (succ_w p)) /\
+  ~ In 5 (blobs fx') /\ blobs fx' = [1; 0].
+Proof.
+  vm_compute. repeat split; try discriminate; try tauto.
+  - intros t H. intuition discriminate.
+  - intros p H. intuition (subst; simpl in *; intuition discriminate).
+  - intuition discriminate.
+Qed.
+
+(* pre-repair Delete: after GC the never-stored config 0 of the tagged image 1 is a graph
+   node; deleting 1 queues it and aborts with not found *)
+Definition cfg_noLeaf := {| fixF1 := true; fixF3 := true; fixF4 := true; fixF13 := true;
+  fixStale := true; fixLeaf := false; skipLinked := false; fixHold := true |}.
+Definition leaf_ops := [OPush 1; OTag 1 0; OGC].
+Lemma delete_absent_leaf_aborts :
+  let st := run_w cfg_noLeaf leaf_ops in
+  In 1 (blobs st) /\ In 0 (gnodes st) /\ ~ In 0 (blobs st) /\
+  snd (delete succ_w subject_w manifest_w cfg_noLeaf ord_id st 1) = ENotFound /\
+  snd (delete succ_w subject_w manifest_w cfg_fixed ord_id (run_w cfg_fixed leaf_ops) 1) = Ok.
+Proof. vm_compute. intuition discriminate. Qed.
+
+(* the "small" repair candidate for the known finding -- queue a referrer only when all its
+   predecessors are already queued -- breaks referrer chains: 2 (referrer of 1) is held by
+   its own referrer 8, so deleting 1 leaves 2 and 8 behind as garbage nobody else links to *)
+Definition cfg_skipLinked := {| fixF1 := true; fixF3 := true; fixF4 := true; fixF13 := true;
+  fixStale := true; fixLeaf := true; skipLinked := true; fixHold := false |}.
+Lemma delete_skip_linked_leaves_chain :
+  let st := run_w cfg_fixed [OPush 0; OPush 1; OPush 2; OPush 8] in
+  blobs (fst (delete succ_w subject_w manifest_w cfg_skipLinked ord_id st 1)) = [8; 2; 0] /\
+  blobs (fst (delete succ_w subject_w manifest_w cfg_fixed ord_id st 1)) = [] /\
+  is_tagged st 2 = false /\ is_tagged st 8 = false.
+Proof. vm_compute. repeat split. Qed.
 
 (* the hypotheses of the theorems are satisfiable on a non-trivial history *)
 Lemma example_gc :
@@ -840,11 +1166,11 @@ Definition same_elements (ords : nat -> list nat) (l : list nat) : Prop :=
 Definition reorders (ord : nat -> list nat -> list nat) : Prop :=
   forall k l y, In y (ord k l) <-> In y l.
 
-Lemma gc_exact_final : forall succ subject,
+Lemma gc_exact_final : forall succ subject manifest,
   acyclic succ -> subject_listed succ subject ->
   forall kl ords st, same_elements ords (candidates (idx st)) ->
   exists st',
-    gc succ subject cfg_fixed kl ords st = (st', Ok) /\
+    gc succ subject manifest cfg_fixed kl ords st = (st', Ok) /\
     (forall x, In x (blobs st') <-> In x (blobs st) /\ Live succ subject st x) /\
     (forall x, In x (gnodes st') <-> Live succ subject st x) /\
     (forall t n, In (RTag t, n) (idx st') <-> In (RTag t, n) (idx st)) /\
@@ -852,20 +1178,20 @@ Lemma gc_exact_final : forall succ subject,
     (forall s, In s (strays st') <-> In s (strays st) /\ (s_known s && s_valid s = false)) /\
     autogc st' = autogc st.
 Proof.
-  intros succ subject H1 H2 kl ords st Ho.
-  destruct (gc_exact succ subject (fun _ => true) H1 H2 kl ords st Ho) as (st' & Hg & A & B & C & D & E).
+  intros succ subject manifest H1 H2 kl ords st Ho.
+  destruct (gc_exact succ subject manifest H1 H2 kl ords st Ho) as (st' & Hg & A & B & C & D & E).
   exists st'. split; [exact Hg|]. split; [exact B|]. split; [exact A|]. split; [exact C|].
   split; [|split; [exact D|exact E]].
-  exact (gc_preds succ subject (fun _ => true) H1 H2 kl ords st st' Ho Hg).
+  exact (gc_preds succ subject manifest H1 H2 kl ords st st' Ho Hg).
 Qed.
 
-Lemma gc_terminates_final : forall succ subject,
+Lemma gc_terminates_final : forall succ subject manifest,
   acyclic succ -> subject_listed succ subject ->
   forall kl ords st, same_elements ords (candidates (idx st)) ->
-  snd (gc succ subject cfg_fixed kl ords st) = Ok.
+  snd (gc succ subject manifest cfg_fixed kl ords st) = Ok.
 Proof.
-  intros succ subject H1 H2 kl ords st Ho.
-  destruct (gc_exact_final succ subject H1 H2 kl ords st Ho) as (st' & Hg & _). now rewrite Hg.
+  intros succ subject manifest H1 H2 kl ords st Ho.
+  destruct (gc_exact_final succ subject manifest H1 H2 kl ords st Ho) as (st' & Hg & _). now rewrite Hg.
 Qed.
 
 Lemma delete_exact_final : forall succ subject manifest,
@@ -903,17 +1229,18 @@ Proof.
   rewrite Hd. discriminate.
 Qed.
 
-(* what the cascade may touch *)
+(* what the cascade may touch: never a tagged node, never a node outside the graph, never a
+   node that a surviving node lists (every holder of a removed node is removed too) *)
 Lemma delete_never_final : forall succ subject manifest st x y,
   Gone succ subject manifest st x y -> y <> x ->
   is_tagged st y = false /\ In y (gnodes st) /\
-  ((forall m, subject y = Some m -> ~ Gone succ subject manifest st x m) ->
-   forall p, In p (gnodes st) -> In y (succ p) -> Gone succ subject manifest st x p).
+  (forall p, In p (gnodes st) -> In y (succ p) -> subject p <> Some y ->
+             Gone succ subject manifest st x p).
 Proof.
   intros succ subject manifest st x y HG Hn. split; [|split].
   - eapply gone_untagged; eauto.
   - destruct (gone_in_store _ _ _ _ _ _ HG); [contradiction|assumption].
-  - now apply gone_dangling_no_survivor.
+  - intros p Hp Hs Hne. eapply gone_holders; eauto. split; assumption.
 Qed.
 
 Lemma delete_plain_final : forall succ subject manifest st x ord,
@@ -937,3 +1264,17 @@ Proof. split; [exact walk_orig_diverges|exact gc_orig_hangs]. Qed.
 
 Lemma hyps_satisfiable : acyclic succ_w /\ subject_listed succ_w subject_w.
 Proof. split; [exact succ_w_lt|exact subj_w_succ]. Qed.
+
+Lemma no_stale_final : forall succ subject manifest kl ops,
+  let st := fold_left (fun st o => fst (step succ subject manifest cfg_fixed kl st o)) ops init in
+  forall n, is_tagged st n = true <-> exists t, In (RTag t, n) (idx st).
+Proof. intros. apply no_stale_tagged. apply run_no_stale. Qed.
+
+Lemma gc_reopen_final : forall succ subject manifest,
+  acyclic succ -> subject_listed succ subject ->
+  forall kl ords st st', same_elements ords (candidates (idx st)) ->
+  gc succ subject manifest cfg_fixed kl ords st = (st', Ok) ->
+  let st2 := fst (step succ subject manifest cfg_fixed kl st' OReopen) in
+  blobs st2 = blobs st' /\ idx st2 = idx st' /\ strays st2 = strays st' /\
+  (forall x, In x (gnodes st2) <-> In x (gnodes st')).
+Proof. intros succ subject manifest H1 H2. exact (gc_reopen succ subject manifest H1 H2). Qed.
